@@ -151,7 +151,15 @@ func verifB2I(b bool) int {
 	return 0
 }
 
-func verifIsNetErr(err error) bool { _, ok := err.(net.Error); return ok }
+// verifIsNetErr mirrors recv's test for a body-read error that ends the connection (a net.Error, or
+// a frameReadError: the body was not consumed completely).
+func verifIsNetErr(err error) bool {
+	if _, ok := err.(net.Error); ok {
+		return true
+	}
+	_, ok := err.(*frameReadError)
+	return ok
+}
 
 // verifWriteClass mirrors the branch exec takes after writeContext: 0 no error, 1 context error with
 // nothing written (the stream is released), 2 any other error (the connection is closed).
